@@ -11,6 +11,7 @@ package trans
 
 import (
 	"encoding/json"
+	"errors"
 	"fmt"
 	"os"
 	"sort"
@@ -404,6 +405,7 @@ type run struct {
 	singles  map[string]map[string]int // per single mutation: how the real code and the predicate answered (printed with VERIF_VERBOSE)
 	seen     map[string]bool           // distinct candidates of the current base state
 	unit     int                       // index of the current base state in the enumeration order
+	holes    int                       // base states that could not be reached
 }
 
 func (r *run) expired() bool {
@@ -415,6 +417,23 @@ func (r *run) expired() bool {
 		r.res.Cap("internal deadline reached after %d candidates", r.nEval)
 	}
 	return r.capped
+}
+
+// unreachable books a base state whose history the real machine did not accept (see historyErr);
+// false = the failure is not an observation about C02 (engine error).
+func (r *run) unreachable(b base, err error) bool {
+	var he *historyErr
+	if !errors.As(err, &he) {
+		return false
+	}
+	r.res.Count("evaluations", 1)
+	r.res.Count("base_states_unreachable", 1)
+	r.holes++
+	r.res.Count("clause:"+he.Clause, 1)
+	r.res.Cap("base state %s not reachable: its candidates were not enumerated", b.Name)
+	r.res.ViolateC(prop, fmt.Sprintf("%s:%s:%s/history:%s", prop, he.Clause, b.App, he.Step), "["+b.Name+"] "+he.Text,
+		replay{"trans", "update", b.Name, []string{}, 0}, r.unit)
+	return true
 }
 
 var sampleAt = map[int64]bool{0: true, 5: true, 31: true, 36: true, 58: true, 301: true, 777: true, 2500: true, 6001: true, 12345: true, 20011: true, 30011: true}
@@ -528,9 +547,13 @@ func search(t *testing.T, res *report.Result) {
 		if (unit-1)%nshards != shard || r.capped {
 			continue
 		}
+		r.unit = unit
 		w, err := build(b)
 		if err != nil {
-			t.Fatalf("engine error: base state %s is not reachable: %v", b.Name, err)
+			if !r.unreachable(b, err) {
+				t.Fatalf("engine error: base state %s is not reachable: %v", b.Name, err)
+			}
+			continue
 		}
 		// the copies handed to the code under test must be indistinguishable from a replayed machine
 		if w2, err := build(b); err != nil || !sameButSigBytes(snapshot(w2.m), snapshot(w.m.Clone())) {
@@ -588,7 +611,7 @@ func search(t *testing.T, res *report.Result) {
 			return true
 		})
 	}
-	res.Extra["exhaustive"] = !r.capped
+	res.Extra["exhaustive"] = !r.capped && r.holes == 0
 	if os.Getenv("VERIF_VERBOSE") != "" {
 		var names []string
 		for n := range r.singles {
@@ -647,7 +670,14 @@ func runReplay(t *testing.T, res *report.Result, path string) {
 		}
 		w, err := build(*b)
 		if err != nil {
-			t.Fatalf("engine error: base state %s is not reachable: %v", b.Name, err)
+			if !r.unreachable(*b, err) {
+				t.Fatalf("engine error: base state %s is not reachable: %v", b.Name, err)
+			}
+			fmt.Printf("  %v\n", err)
+			for _, v := range res.Violations {
+				fmt.Printf("  VERDICT %s\n", v.Signature)
+			}
+			return
 		}
 		fmt.Printf("  base reached by the real machine through %v\n", w.hist)
 		s := &searcher{res: res, w: w, x: &mctx{N: b.N, Cur: w.m.State()}, fresh: true, trace: true}
